@@ -52,12 +52,13 @@ Definition run_c12 (i : list Z) : list Z :=
       | None => [-998]
       | Some dp =>
           [1; dp; if ifc =? 0 then aifc else ifc;
-           h4; if dec_bool h4 then i4 else 0; if dec_bool h4 then p4 else 0; if dec_bool h4 then g4 else 0;
-           h6; if dec_bool h6 then i6 else 0; if dec_bool h6 then p6 else 0; if dec_bool h6 then g6 else 0;
+           (* an address is recovered for a family only when the daemon sent address AND subnet (flag 1) *)
+           enc_bool (h4 =? 1); if h4 =? 1 then i4 else 0; if h4 =? 1 then p4 else 0; if h4 =? 1 then g4 else 0;
+           enc_bool (h6 =? 1); if h6 =? 1 then i6 else 0; if h6 =? 1 then p6 else 0; if h6 =? 1 then g6 else 0;
            if dec_bool heni then egh else 0; if dec_bool heni && dec_bool egh then eg4 else 0;
            limit (dec_bool hpod) ing rti; limit (dec_bool hpod) egr rte;
            enc_bool tr; if dec_bool heni then vid else 0; dr; if dec_bool heni then erdma else 0; dpeer; nr]
-          ++ enc_routes h4 (if dec_bool h4 then g4 else 0) h6 (if dec_bool h6 then g6 else 0) (Z.to_nat nr) routes
+          ++ enc_routes (enc_bool (dec_bool h4)) (if dec_bool h4 then g4 else 0) (enc_bool (dec_bool h6)) (if dec_bool h6 then g6 else 0) (Z.to_nat nr) routes
       end
   | _ => bad
   end.
@@ -118,8 +119,8 @@ Definition chk_c12 (i o : list Z) : bool :=
       match o with
       | 1 :: dp :: name :: oh4 :: oi4 :: op4 :: og4 :: oh6 :: oi6 :: op6 :: og6 :: _ :: _ :: oing :: oegr :: _ =>
           (* the plugin recovers exactly the addresses (with the subnet's mask), gateways and limits *)
-          (oh4 =? h4) && (if dec_bool h4 then (oi4 =? i4) && (op4 =? p4) && (og4 =? g4) else true) &&
-          (oh6 =? h6) && (if dec_bool h6 then (oi6 =? i6) && (op6 =? p6) && (og6 =? g6) else true) &&
+          (oh4 =? enc_bool (h4 =? 1)) && (if h4 =? 1 then (oi4 =? i4) && (op4 =? p4) && (og4 =? g4) else true) &&
+          (oh6 =? enc_bool (h6 =? 1)) && (if h6 =? 1 then (oi6 =? i6) && (op6 =? p6) && (og6 =? g6) else true) &&
           (oing =? (if 0 <? rti then rti / 8 else if dec_bool hpod then ing else 0)) &&
           (oegr =? (if 0 <? rte then rte / 8 else if dec_bool hpod then egr else 0))
       | _ => true
